@@ -15,6 +15,7 @@ LEVEL = "proof"
 THEOREMS = {
     "Proofs.Props.C12": ["MsPack.Cab.C12_payload_altered", "MsPack.Cab.C12_sizes_altered",
                          "MsPack.Cab.C12_stored_altered", "MsPack.Cab.C12_cksum_single_byte"],
+    "Proofs.Props.C12Extract": ["MsPack.Cab.C12_stored_extract_refused", "MsPack.Cab.C12_extract_payload_byte", "MsPack.Cab.C12_extract_usize_byte"],
     "Proofs.Props.Tables": ["MsPack.TableObligations.crc32_table_is_crc32"],
 }
 ASSUMPTIONS = [
